@@ -347,6 +347,7 @@ Proof.
   - now apply raw_pop_inv.
   - apply raw_drop_many_inv.
   - apply notify_inv.
+  - constructor.
   - exact H.
   - exact H.
   - unfold v_getitem. destruct i.
